@@ -180,6 +180,8 @@ private:
       ii      = b->end();
       n->next = b->next;
       n->prev = b;
+      if (n->next)
+        n->next->prev = n;
       b->next = n;
       if (b == last)
         last = n;
